@@ -17,7 +17,7 @@ META = {
     },
 }
 
-LIMITED = (('NA', 2), ('NB', 4), ('NC', 4), ('ND', 3), ('NN', 1))
+LIMITED = (('NA', 2), ('NB', 3), ('NC', 3), ('ND', 3), ('NN', 1), ('NM', 4), ('NK', 2))
 
 
 def make_scn(rng, real):
@@ -49,15 +49,15 @@ def judge(rep, scn, out):
     if not binding:
         from collections import Counter
         cnt = Counter(t['type'] for t in scn['spec']['tasks'].values())
-        binding = any(cnt[t] > m for t, m in (('NB', 1), ('NC', 2), ('ND', 3)))
+        binding = any(cnt[t] > m for t, m in (('NB', 1), ('NC', 2), ('ND', 3), ('NM', 2), ('NK', 1)))
     return binding
 
 
 def run_shard(rep):
     from vlab.props.dagprop import drive
     cfg = META['tiers'][rep.tier]
-    rep.require('limit_checks', 5000)
-    rep.require('rest_points', 100)
+    rep.require('limit_checks', 3000)
+    rep.require('rest_points', 60)
     drive(rep, 'C04', make_scn=make_scn, judge=judge, n_sim=cfg['n_sim'], n_real=cfg['n_real'])
 
 
